@@ -315,6 +315,7 @@ func c02Property(t *rapid.T, st *Stats) {
 			mr := e.repo(rn)
 			var raw []byte
 			var mm *mman
+			otherType := false
 			docker := rapid.IntRange(0, 3).Draw(t, "docker") == 0
 			if rapid.IntRange(0, 3).Draw(t, "index") == 0 {
 				mt := mtIndex
@@ -328,7 +329,19 @@ func c02Property(t *rapid.T, st *Stats) {
 					for i := 0; i < n; i++ {
 						c := rapid.SampledFrom(mans).Draw(t, "child")
 						if _, ok := mr.blobs[c]; ok {
-							kids = append(kids, mdesc{MediaType: mr.mans[c].mt, Digest: c, Size: int64(len(mr.mans[c].raw))})
+							k := mdesc{MediaType: mr.mans[c].mt, Digest: c, Size: int64(len(mr.mans[c].raw))}
+							// what an index says about a manifest that was pushed and acknowledged earlier must not change how that
+							// manifest reads back: descriptors with another size or media type are accepted by the registry
+							switch rapid.SampledFrom([]string{"exact", "exact", "exact", "size", "type"}).Draw(t, "childDescriptor") {
+							case "size":
+								k.Size += 7
+								e.class("child-listed-with-other-size")
+							case "type":
+								k.MediaType = map[string]string{mtImage: mtDImage, mtDImage: mtImage, mtIndex: mtDIndex, mtDIndex: mtIndex}[k.MediaType]
+								e.class("child-listed-with-other-type")
+								otherType = true
+							}
+							kids = append(kids, k)
 						}
 					}
 				}
@@ -403,6 +416,11 @@ func c02Property(t *rapid.T, st *Stats) {
 			}
 			if int64(len(raw)) >= limit-1 {
 				e.class("at-limit")
+			}
+			if otherType && r.code >= 400 && r.code < 500 {
+				// whether such an index is acceptable is C04's question; refused, it must have changed nothing (the sweep compares)
+				e.class("index-contradicting-child-type-refused")
+				return
 			}
 			if r.code != 201 {
 				e.abandon(fmt.Sprintf("valid manifest answered %d: %s", r.code, trunc(r.body, 120)))
